@@ -197,6 +197,10 @@ func Power(ctx *expr.Context, input system.Collection, args ...expr.Expression) 
 	if err != nil {
 		return nil, err
 	}
+	// An empty exponent yields an empty result.
+	if argValues.IsEmpty() {
+		return system.Collection{}, nil
+	}
 	// Validating integers case
 	_, ok := input[0].(system.Integer)
 	_, ok2 := argValues[0].(system.Integer)
@@ -212,7 +216,10 @@ func Power(ctx *expr.Context, input system.Collection, args ...expr.Expression) 
 			return nil, err
 		}
 		// Powering ints
-		res := powInt32(number, exp)
+		res, overflow := powInt32(number, exp)
+		if overflow {
+			return system.Collection{}, nil
+		}
 		return system.Collection{system.Integer(res)}, nil
 	}
 	// Input type conversion to float64
@@ -368,18 +375,35 @@ func logToBase(number, base float64) float64 {
 	return math.Log(number) / math.Log(base)
 }
 
-// powInt32 returns the powering of a number to a given exponential.
-func powInt32(base, exp int32) int32 {
+// powInt32 returns the powering of a number to a given exponential, and
+// whether the result overflowed the 32-bit range.
+func powInt32(base, exp int32) (int32, bool) {
 	if exp == 0 {
-		return 1
+		return 1, false
 	}
 	if exp < 0 {
-		return 0
+		return 0, false
 	}
 
-	result := base
-	for i := int32(2); i <= exp; i++ {
-		result *= base
+	// Bases of magnitude at most 1 never overflow; answer them directly so
+	// that the loop below always ends after at most 31 multiplications.
+	switch base {
+	case 0, 1:
+		return base, false
+	case -1:
+		if exp%2 == 0 {
+			return 1, false
+		}
+		return -1, false
 	}
-	return result
+
+	result := system.Integer(base)
+	for i := int32(2); i <= exp; i++ {
+		var err error
+		result, err = result.Mul(system.Integer(base))
+		if err != nil {
+			return 0, true
+		}
+	}
+	return int32(result), false
 }
